@@ -162,6 +162,17 @@ def _container_elem(model, f, cont: ast.expr, which: str, depth: int):
 
 
 def expr_type(model: SourceModel, f: FuncInfo, e: ast.expr, depth: int = 4):
+    cache = model.__dict__.setdefault("_expr_type_cache", {})
+    key = (id(f.node), id(e), depth)
+    hit = cache.get(key)
+    if hit is not None and hit[0] is e:
+        return hit[1]
+    r = _expr_type(model, f, e, depth)
+    cache[key] = (e, r)
+    return r
+
+
+def _expr_type(model: SourceModel, f: FuncInfo, e: ast.expr, depth: int = 4):
     if isinstance(e, ast.Name):
         if e.id in ("self", "cls") and f.cls is not None:
             return f.cls
